@@ -92,7 +92,19 @@ def streams(rng, tier):
             res.append(c)
             if c["how"] == "full" or len(res) % 3 == 0:
                 res.append(mirror(c))
-        return res
+        # mostly many_to_many; sometimes another expectation that the generated keys satisfy (a join
+        # whose expectation holds must return the many_to_many rows: unique-side fast paths live here)
+        out2 = []
+        for c in res:
+            if rng.random() < 0.3:
+                try:
+                    ok = [e for e in J.EXPECTS + [None] if J.must_raise(c, c["how"], e) is None]
+                except Exception:                            # noqa: BLE001
+                    ok = []
+                if ok:
+                    c = dict(c, expect=rng.choice(ok))
+            out2.append(c)
+        return out2
     out.append(("random", with_mirror([J.gen_pair(rng, how=rng.choice(["left", "full"])) for _ in range(nrand)])))
     out.append(("small", with_mirror([J.gen_pair(rng, maxrows=3, how=rng.choice(["left", "full"])) for _ in range(nsmall)])))
     un = []
